@@ -735,7 +735,11 @@ func (e *enc) indexAddr(st *State, x *ssa.IndexAddr) {
 	switch u := x.X.Type().Underlying().(type) {
 	case *types.Slice:
 		e.oblige("bounds", txt, fmt.Sprintf("(and (<= 0 %s) (< %s (slen %s)))", iv, iv, xv), x.Pos(), txt)
-		e.setVal(x, e.mkElem(fmt.Sprintf("(sarr %s)", xv), fmt.Sprintf("(+ (soff %s) %s)", xv, iv)))
+		if off := slicePart(xv, 1); off == "0" {
+			e.setVal(x, e.mkElem(slicePart(xv, 0), iv))
+		} else {
+			e.setVal(x, e.mkElem(slicePart(xv, 0), fmt.Sprintf("(+ %s %s)", off, iv)))
+		}
 		e.elemAddr[e.val(x)] = true
 	case *types.Pointer:
 		e.nilCheck(x.X, xv, x.Pos())
